@@ -389,6 +389,15 @@ impl std::io::Write for Dribble {
     fn flush(&mut self) -> std::io::Result<()> { Ok(()) }
 }
 
+/// a refusal must not repeat the secret part of what it refused: the error of a key reader, in its Display and
+/// Debug forms (all flags), is searched for renderings of the secret bytes of the input
+fn error_leaks<E: std::fmt::Debug + std::fmt::Display>(e: &E, input: &[u8], secret_from: usize) -> bool {
+    let Ok(v) = serde_json::from_slice::<Vec<u8>>(input) else { return false };
+    if v.len() <= secret_from { return false; }
+    let text = format!("{} {:?} {:#?}", e, e, e);
+    crate::secrets::leaks(&text, &v[secret_from..])
+}
+
 fn json_read<R: std::io::Read>(codec: &str, rd: &mut R) -> String {
     match codec {
         "keypair" => match ElGamalKeypair::read_json(rd) {
@@ -411,10 +420,21 @@ fn json_read<R: std::io::Read>(codec: &str, rd: &mut R) -> String {
     }
 }
 
+fn json_refusal_leaks(codec: &str, input: &[u8]) -> bool {
+    let rd = &mut std::io::Cursor::new(input.to_vec());
+    match codec {
+        "keypair" => ElGamalKeypair::read_json(rd).err().map(|e| error_leaks(&e, input, 32)).unwrap_or(false),
+        "secret" => ElGamalSecretKey::read(rd).err().map(|e| error_leaks(&e, input, 0)).unwrap_or(false),
+        "aekey" => AeKey::read(rd).err().map(|e| error_leaks(&e, input, 0)).unwrap_or(false),
+        _ => false,
+    }
+}
+
 pub fn op_json(a: &[&str]) -> String {
     let [codec, h] = a else { return "bad-op".into() };
     let Some(b) = unhex(h) else { return "bad-op".into() };
     let whole = json_read(codec, &mut std::io::Cursor::new(b.clone()));
+    if whole == "err" && json_refusal_leaks(codec, &b) { return "err-leaks-secret".into() }
     // the same text through readers that return short reads: the result is a function of the text alone
     for chunk in [1usize, 7, 64] {
         let r = json_read(codec, &mut Trickle { data: &b, pos: 0, chunk });
@@ -810,6 +830,12 @@ pub fn op_ae(a: &[&str]) -> String {
                     let r1 = c.decrypt(&k);
                     let r2 = k.decrypt(&c);
                     if r1 != r2 { return "variant-mismatch".into() }
+                    // a copy of the key is the same key: it opens what the original opens, and what it seals the original opens
+                    let kc = k.clone();
+                    if kc.decrypt(&c) != r1 { return "variant-mismatch:cloned-key".into() }
+                    if k.decrypt(&kc.encrypt(77)) != Some(77) || kc.decrypt(&k.encrypt(78)) != Some(78) { return "variant-mismatch:cloned-key-seals".into() }
+                    let kb: [u8; 16] = k.clone().into();
+                    if let Ok(k2) = AeKey::try_from(&kb[..]) { if k2.decrypt(&c) != r1 { return "variant-mismatch:key-bytes".into() } } else { return "variant-mismatch:key-bytes".into() }
                     match r1 { Some(x) => format!("some:{}", x), None => "none".into() }
                 }
             }
